@@ -31,8 +31,9 @@ EncExpected(ev) ==
         fits4 == Len(e) <= 4
     IN [ser |-> BytesToHex(e), valhex |-> BytesToHex(e),
         roundtrip |-> Decode(e) = x /\ IsMinimal(e),
-        backok |-> fits4]
-EncObserved(ev) == [ser |-> ev.ser, valhex |-> ev.valhex, roundtrip |-> TRUE, backok |-> ev.backok]
+        backok |-> fits4,
+        lit |-> BytesToHex(e)]             \* the decimal literal, as script / stack arguments read it, is the same number
+EncObserved(ev) == [ser |-> ev.ser, valhex |-> ev.valhex, roundtrip |-> TRUE, backok |-> ev.backok, lit |-> IF "lit" \in DOMAIN ev THEN ev.lit ELSE ev.ser]
 EncClass(ev) == <<"Enc", IF ev.neg THEN "neg" ELSE "nonneg", Len(H(ev.ser)), ev.backok>>
 
 (* ---- C09: --default-flags, --modify-flags, monotonicity pairs ---- *)
@@ -118,11 +119,12 @@ Render(v) == IF v[1] = "data" THEN BytesToHex(v[2])
              ELSE IF v[1] = "int" THEN (IF IsNeg(v[2]) THEN "-" ELSE "") \o ToString(ToInt(Mag(v[2])))
              ELSE "?"
 TfExpected(ev) == LET v == TfValue(ev) IN
-    IF v = TfFail THEN [failed |-> TRUE, out |-> ""]
+    IF v = TfUnspec THEN [failed |-> FALSE, out |-> "(unspecified)"]
+    ELSE IF v = TfFail THEN [failed |-> TRUE, out |-> ""]
     ELSE [failed |-> FALSE, out |-> IF ev.form = "inline" THEN BytesToHex(Emit(v))
                                     ELSE IF ev.name = "hex" THEN CodesToStr(v[2])      \* the command form of hex prints the digits unquoted
                                     ELSE Render(v)]
-TfObserved(ev) == IF TfValue(ev) = TfFail THEN [failed |-> ev.failed, out |-> ""] ELSE [failed |-> ev.failed, out |-> ev.out]
+TfObserved(ev) == IF TfValue(ev) = TfUnspec THEN [failed |-> FALSE, out |-> "(unspecified)"] ELSE IF TfValue(ev) = TfFail THEN [failed |-> ev.failed, out |-> ""] ELSE [failed |-> ev.failed, out |-> ev.out]
 
 Init == l = 1 /\ divs = <<>> /\ cov = {} /\ stats = [calls |-> 0]
 
